@@ -115,7 +115,9 @@ fn check_inbound_inner(rep: &mut Report, total: usize, terminated: bool, chunks:
     rep.eval(((total as u64) << 20) ^ (chunks.iter().fold(terminated as u64, |h, c| h.wrapping_mul(31).wrapping_add(*c as u64))));
     let replay = json!({"monitor": "c17", "dir": "in", "wire_bytes": total, "terminated": terminated, "chunks": chunks, "limit": limit, "build": label});
     let must_accept = terminated && total < limit && frame_len >= FRAME_FIXED;
-    let must_overflow = total >= limit + step; // whether or not a terminator is somewhere beyond
+    // a frame larger than the limit must be refused (2 bytes of slack for how an implementation counts the
+    // terminator and its end marker); the buffer itself may be one growth step larger than the limit (hook)
+    let must_overflow = total > limit + 2; // whether or not a terminator is somewhere beyond
     match (&r.outcome, must_accept, must_overflow) {
         (In::Accepted, _, false) if terminated => {
             if !r.content_ok {
@@ -233,7 +235,7 @@ fn check_inbound_burst(rep: &mut Report, nsmall: usize, small_len: usize, total:
             }
         }
     }
-    let must_overflow = total >= limit + step;
+    let must_overflow = total > limit + 2;
     let must_accept = terminated && burst_total < limit;
     match &outcomes[nsmall].0 {
         In::Accepted if terminated && !must_overflow => rep.count("inbound_accepted"),
@@ -242,6 +244,95 @@ fn check_inbound_burst(rep: &mut Report, nsmall: usize, small_len: usize, total:
         In::Overflow => rep.violation("C17/inbound-frame-below-limit-refused", format!("{total} wire bytes behind {nsmall} small frames: the whole burst ({burst_total} bytes) is below the limit {limit}"), replay),
         In::Other(e) if must_overflow => rep.violation("C17/inbound-no-overflow-error-beyond-limit", format!("{total} wire bytes (>= limit {limit} + step) behind {nsmall} small frames of {small_len} bytes in the same reads: {e}"), replay),
         In::Other(e) if must_accept => rep.violation("C17/inbound-frame-below-limit-not-delivered", format!("{total} wire bytes behind {nsmall} small frames: {e}"), replay),
+        In::Other(_) => rep.count("inbound_other_in_grey_zone"),
+    }
+}
+
+/// A connection with a past: `first` messages (frame lengths) are received and consumed one after the other,
+/// then a frame of `total` wire bytes arrives. What the earlier traffic left behind (a grown, shrunk or
+/// re-used buffer) must not move the limit.
+fn check_inbound_history(rep: &mut Report, first: &[usize], total: usize, terminated: bool, chunk: usize, limit: usize, step: usize, label: &str) {
+    let replay = json!({"monitor": "c17", "dir": "history", "first": first, "wire_bytes": total, "terminated": terminated, "chunk": chunk, "limit": limit, "build": label});
+    rep.eval(((total as u64) << 20) ^ first.iter().fold(terminated as u64 + 0x4157, |h, c| h.wrapping_mul(31).wrapping_add(*c as u64)) ^ chunk as u64);
+    rep.count("inbound_history_cases");
+    let r = vnet::catch(|| {
+        let wire = new_wire(0);
+        let mut conn = Connection::new(VSocket(wire.clone()));
+        let push = |data: Vec<u8>| {
+            let mut w = wire.borrow_mut();
+            let mut off = 0;
+            while off < data.len() {
+                let n = chunk.max(1).min(data.len() - off);
+                w.push(Rx::Bytes(data[off..off + n].to_vec()));
+                off += n;
+            }
+        };
+        let recv = |conn: &mut Connection<VSocket>| {
+            let fut = conn.receive_call::<serde_json::Value>();
+            let mut fut = core::pin::pin!(fut);
+            match vnet::poll_once(fut.as_mut()) {
+                core::task::Poll::Ready(Ok(c)) => (In::Accepted, c.method()["parameters"]["t"].as_str().map(|s| s.len() + FRAME_FIXED).unwrap_or(0)),
+                core::task::Poll::Ready(Err(Error::BufferOverflow)) => (In::Overflow, 0),
+                core::task::Poll::Ready(Err(e)) => (In::Other(format!("{e:?}")), 0),
+                core::task::Poll::Pending => (In::Other("pending (waiting for more bytes)".into()), 0),
+            }
+        };
+        for (k, l) in first.iter().enumerate() {
+            let mut d = frame_of(*l);
+            d.push(0);
+            push(d);
+            let (o, got) = recv(&mut conn);
+            if o != In::Accepted || got != *l {
+                return Err(format!("earlier message #{k} of {l} bytes: {o:?} (length {got})"));
+            }
+        }
+        let frame_len = if terminated { total - 1 } else { total };
+        let mut d = frame_of(frame_len.max(FRAME_FIXED));
+        if terminated {
+            d.push(0);
+        }
+        push(d);
+        let out = recv(&mut conn);
+        #[allow(unused_mut)]
+        let mut max_buf = 0usize;
+        #[cfg(zlink_verif)]
+        {
+            max_buf = conn.read().verif_state().2;
+        }
+        Ok((out, max_buf))
+    });
+    let ((outcome, got_len), max_buf) = match r {
+        Err(p) => {
+            rep.violation("C17/panic-while-receiving", format!("{p}; after messages of {first:?} bytes, {total} wire bytes"), replay);
+            return;
+        }
+        Ok(Err(e)) => {
+            let below = first.iter().all(|l| l + 1 < limit);
+            if below {
+                rep.violation("C17/inbound-frame-below-limit-not-delivered", format!("{e}; history {first:?}"), replay);
+            }
+            return;
+        }
+        Ok(Ok(x)) => x,
+    };
+    if cfg!(zlink_verif) && max_buf > limit + step {
+        rep.violation("C17/receive-buffer-grew-beyond-limit-plus-step", format!("buffer length {max_buf} > {limit}+{step} after messages of {first:?} bytes"), replay.clone());
+    }
+    let must_accept = terminated && total < limit;
+    let must_overflow = total > limit + 2;
+    match &outcome {
+        In::Accepted if must_overflow => rep.violation("C17/inbound-oversized-frame-accepted", format!("{total} wire bytes (limit {limit}) on a connection that had received messages of {first:?} bytes before"), replay),
+        In::Accepted => {
+            if got_len + 1 != total {
+                rep.violation("C17/inbound-accepted-frame-content-damaged", format!("{total} wire bytes, decoded length {got_len}"), replay);
+            } else {
+                rep.count("inbound_accepted");
+            }
+        }
+        In::Overflow if must_accept => rep.violation("C17/inbound-frame-below-limit-refused", format!("{total} wire bytes < limit {limit} on a connection that had received messages of {first:?} bytes before"), replay),
+        In::Overflow => rep.count("inbound_overflow_reported"),
+        In::Other(e) if must_overflow => rep.violation("C17/inbound-no-overflow-error-beyond-limit", format!("{total} wire bytes on a connection with history {first:?}: {e}"), replay),
+        In::Other(e) if must_accept => rep.violation("C17/inbound-frame-below-limit-not-delivered", format!("{total} wire bytes on a connection with history {first:?}: {e}"), replay),
         In::Other(_) => rep.count("inbound_other_in_grey_zone"),
     }
 }
@@ -399,7 +490,10 @@ pub fn run(cfg: &Cfg) -> Report {
             rep.notes.push(format!("replay recorded limit {} but this build has {limit}", r["limit"]));
             return rep;
         }
-        if r["dir"] == "burst" {
+        if r["dir"] == "history" {
+            let first: Vec<usize> = r["first"].as_array().unwrap().iter().map(|c| c.as_u64().unwrap() as usize).collect();
+            check_inbound_history(&mut rep, &first, r["wire_bytes"].as_u64().unwrap() as usize, r["terminated"].as_bool().unwrap(), r["chunk"].as_u64().unwrap() as usize, limit, step, label);
+        } else if r["dir"] == "burst" {
             let chunks: Vec<usize> = r["chunks"].as_array().unwrap().iter().map(|c| c.as_u64().unwrap() as usize).collect();
             check_inbound_burst(&mut rep, r["nsmall"].as_u64().unwrap() as usize, r["small_len"].as_u64().unwrap() as usize, r["wire_bytes"].as_u64().unwrap() as usize, r["terminated"].as_bool().unwrap(), &chunks, limit, step, label);
         } else if r["dir"] == "in" {
@@ -433,6 +527,22 @@ pub fn run(cfg: &Cfg) -> Report {
         }
         if cfg.mine(6) && cfg.thorough {
             check_inbound_burst(&mut rep, 1, 300, limit + 2 * step, true, &[65536, 4096], limit, step, label);
+        }
+        // connections with a past, at the production limit: one or two big messages were received before the
+        // frame at the limit arrives (buffers never shrink today; whatever a build does with a big drained
+        // buffer must not move the limit)
+        let hist: Vec<(Vec<usize>, usize, bool)> = vec![
+            (vec![1_310_975], limit + 100, true),
+            (vec![3 * 1024 * 1024 + 511, 700], limit + 3, false),
+            (vec![2_097_407], limit - 1, true),
+            (vec![5_000_191, 1_500_031], limit + 100, true),
+            (vec![1_048_831], limit + 200, false),
+            (vec![70_000, 9_000_447], limit + 64, true),
+        ];
+        for (i, (first, total, term)) in hist.into_iter().enumerate() {
+            if cfg.mine(8 + i as u64) && (cfg.thorough || i < 3) {
+                check_inbound_history(&mut rep, &first, total, term, 1 << 20, limit, step, label);
+            }
         }
         // outbound at the production limit is practically unreachable (quadratic re-serialisation);
         // one large-but-affordable message checks the growth path at scale
@@ -497,6 +607,20 @@ pub fn run(cfg: &Cfg) -> Report {
         total += stride;
     }
     rep.sample(8, || json!({"direction": "inbound", "wire_bytes": "1..=limit+2*step+2 (every size)", "limit": limit, "chunkings": ["whole", "255/256/257", "random", "1-byte near the limit"]}));
+    // connections with a past (lowered limit): earlier messages of assorted sizes, then a frame around the limit
+    for _ in 0..cfg.n(600, 20_000) {
+        let nf = rng.range(1, 3);
+        let first: Vec<usize> = (0..nf).map(|_| *rng.pick(&[41usize, 255, 256, 1000, 4097, 20_001, 33_023, 60_000, 65_000])).map(|l| l.min(limit - 2)).collect();
+        let total = match rng.below(5) {
+            0 => limit + 3 + rng.below(300),
+            1 => limit - 1 - rng.below(3),
+            2 => limit + rng.below(3),
+            3 => limit + step + rng.below(600),
+            _ => rng.range(FRAME_FIXED + 2, limit),
+        };
+        let chunk = *rng.pick(&[1usize << 20, 4096, 257, 1000]);
+        check_inbound_history(&mut rep, &first, total, rng.chance(2, 3), chunk, limit, step, label);
+    }
     // inbound bursts: small frames in front of a big one, chunked across the frame boundaries
     let nb = cfg.n(1500, 40_000);
     for _ in 0..nb {
